@@ -183,8 +183,7 @@ def _canon(value):
 
 
 # ---- generator ------------------------------------------------------------------------------
-def generate(rng, tier):
-    kind = rng.choice(TYPES)
+def _spec(rng, kind):
     capacity = rng.choice([1, 1, 2, 3])
     spec = {"type": kind, "capacity": capacity}
     if kind == "container":
@@ -192,6 +191,17 @@ def generate(rng, tier):
         spec["init"] = rng.randint(0, spec["capacity"])
     if kind in ("store", "pstore", "fstore") and rng.random() < 0.3:
         spec["capacity"] = "inf"
+    return spec
+
+
+def generate(rng, tier):
+    kind = rng.choice(TYPES)
+    spec = _spec(rng, kind)
+    resources = {"R": spec}
+    if rng.random() < 0.35:
+        # a second resource in the same environment - of the same type half of the time: whatever
+        # happens on one must not show on the other (queues, users and items are per object)
+        resources["R2"] = _spec(rng, kind if rng.random() < 0.5 else rng.choice(TYPES))
     serial = [0]
 
     def rid():
@@ -202,60 +212,66 @@ def generate(rng, tier):
     wrap_items = rng.random() < 0.3
     # a FilterStore holding items that compare equal without being the same item
     twins = kind == "fstore" and rng.random() < 0.3
+
+    def make(res):
+        kind = resources[res]["type"]
+        capacity = resources[res]["capacity"]
+        patience = rng.choice([None, None, 0.5, 1, 2])
+        if kind == "container":
+            op = {"op": rng.choice(["put", "get"]), "res": res, "id": rid(),
+                  "amount": rng.randint(1, 3)}
+        elif kind in ("store", "pstore", "fstore"):
+            if rng.random() < 0.5:
+                item[0] += 1
+                value = item[0] if kind != "pstore" else rng.randint(0, 9) * 100 + item[0]
+                if twins and kind == "fstore":
+                    value = rng.choice([1, 1.0, True, 2, 2.0, 3, 3.0, 0, False])
+                op = {"op": "put", "res": res, "id": rid(), "item": value}
+                if kind == "pstore" and wrap_items:
+                    op["wrap"] = True
+            else:
+                op = {"op": "get", "res": res, "id": rid()}
+                if kind == "fstore" and rng.random() < 0.7:
+                    op["filter"] = rng.choice([{"mod": 2, "rem": 0}, {"mod": 2, "rem": 1},
+                                               {"mod": 3, "rem": 0}, {"ge": 4},
+                                               {"eq": rng.randint(1, 8)}])
+                    if twins:
+                        op["filter"] = rng.choice([{"type": "int"}, {"type": "float"},
+                                                   {"type": "bool"}, {"type": "float"},
+                                                   {"eq": rng.randint(0, 3)}, {"ge": 2}])
+        else:
+            op = {"op": "request", "res": res, "id": rid(),
+                  "hold": rng.choice([0, 0.5, 1, 2, 3])}     # 0: zero-length critical section
+            if kind != "resource":
+                op["priority"] = rng.randint(0, 3)
+            if kind == "preemptive":
+                op["preempt"] = rng.random() < 0.7
+            if rng.random() < 0.15:
+                op["release"] = False
+            elif rng.random() < 0.35:
+                op["ctx"] = True         # `with resource.request() as req:`
+            elif kind == "preemptive" and capacity >= 2 and rng.random() < 0.3:
+                # a second slot of the same resource in a nested `with` block
+                op["nested"] = {"id": rid(), "priority": rng.randint(0, 3),
+                                "preempt": rng.random() < 0.7,
+                                "hold": rng.choice([0.5, 1, 2, 3])}
+                patience = None
+        if patience is not None:
+            op["patience"] = patience
+        return op
+
     processes = []
     for p in range(rng.randint(2, 5)):
         ops = []
         if rng.random() < 0.5:
             ops.append({"op": "timeout", "d": rng.choice(DELAYS)})
         for _ in range(rng.randint(1, 4)):
-            patience = rng.choice([None, None, 0.5, 1, 2])
-            if kind == "container":
-                op = {"op": rng.choice(["put", "get"]), "res": "R", "id": rid(),
-                      "amount": rng.randint(1, 3)}
-            elif kind in ("store", "pstore", "fstore"):
-                if rng.random() < 0.5:
-                    item[0] += 1
-                    value = item[0] if kind != "pstore" else rng.randint(0, 9) * 100 + item[0]
-                    if twins:
-                        value = rng.choice([1, 1.0, True, 2, 2.0, 3, 3.0, 0, False])
-                    op = {"op": "put", "res": "R", "id": rid(), "item": value}
-                    if kind == "pstore" and wrap_items:
-                        op["wrap"] = True
-                else:
-                    op = {"op": "get", "res": "R", "id": rid()}
-                    if kind == "fstore" and rng.random() < 0.7:
-                        op["filter"] = rng.choice([{"mod": 2, "rem": 0}, {"mod": 2, "rem": 1},
-                                                   {"mod": 3, "rem": 0}, {"ge": 4},
-                                                   {"eq": rng.randint(1, 8)}])
-                        if twins:
-                            op["filter"] = rng.choice([{"type": "int"}, {"type": "float"},
-                                                       {"type": "bool"}, {"type": "float"},
-                                                       {"eq": rng.randint(0, 3)}, {"ge": 2}])
-            else:
-                op = {"op": "request", "res": "R", "id": rid(),
-                      "hold": rng.choice([0, 0.5, 1, 2, 3])}     # 0: zero-length critical section
-                if kind != "resource":
-                    op["priority"] = rng.randint(0, 3)
-                if kind == "preemptive":
-                    op["preempt"] = rng.random() < 0.7
-                if rng.random() < 0.15:
-                    op["release"] = False
-                elif rng.random() < 0.35:
-                    op["ctx"] = True         # `with resource.request() as req:`
-                elif kind == "preemptive" and capacity >= 2 and rng.random() < 0.3:
-                    # a second slot of the same resource in a nested `with` block
-                    op["nested"] = {"id": rid(), "priority": rng.randint(0, 3),
-                                    "preempt": rng.random() < 0.7,
-                                    "hold": rng.choice([0.5, 1, 2, 3])}
-                    op.pop("patience", None)
-                    patience = None
-            if patience is not None:
-                op["patience"] = patience
-            ops.append(op)
+            res = "R2" if "R2" in resources and rng.random() < 0.35 else "R"
+            ops.append(make(res))
             if rng.random() < 0.5:
                 ops.append({"op": "timeout", "d": rng.choice(DELAYS)})
         processes.append({"name": "p%d" % p, "ops": ops})
-    return {"property": ID, "scenario": {"resources": {"R": spec}, "processes": processes},
+    return {"property": ID, "scenario": {"resources": resources, "processes": processes},
             "plan": [], "config": {}}
 
 
@@ -265,18 +281,20 @@ class Follower:
 
     def __init__(self, world):
         self.world = world
-        spec = world.scenario["resources"]["R"]
-        capacity = spec.get("capacity")
-        capacity = float("inf") if capacity in (None, "inf") else capacity
-        self.model = Model(spec["type"], capacity, spec.get("init", 0))
-        self.model.mark = lambda: len(world.trace)
+        self.models = {}
+        for name, spec in world.scenario["resources"].items():
+            capacity = spec.get("capacity")
+            capacity = float("inf") if capacity in (None, "inf") else capacity
+            model = self.models[name] = Model(spec["type"], capacity, spec.get("init", 0))
+            model.mark = lambda: len(world.trace)
+        self.model = self.models["R"]
         self.bad = world.monitor_violations
         self.after_cancel = False
         self.queued = False
         self.compared = 0
 
     def __call__(self, what, res, rid, kind, actor, data):
-        world, model = self.world, self.model
+        world, model = self.world, self.models[res]
         now = world.env.now
         if what == "issue":
             if kind == "release":
@@ -289,26 +307,31 @@ class Follower:
             model.cancel(rid)
         if getattr(world, "batching", False):
             return                 # more reports about this very instant follow
-        observed = world.state(res)
-        expected = model.state()
         self.compared += 1
-        if model.putq or model.getq:
-            self.queued = True
-        if _canon(observed) != _canon(expected) and len(self.bad) < 5:
-            self.bad.append(("state", "after %s of %s (%s) at t=%r: observed %r, reference %r"
-                             % (what, rid, kind or "", now, observed, expected)))
+        granted = set()
+        for name, model in self.models.items():       # every resource, also the untouched ones
+            observed = world.state(name)
+            expected = model.state()
+            granted |= set(model.granted)
+            if model.putq or model.getq:
+                self.queued = True
+            if _canon(observed) != _canon(expected) and len(self.bad) < 5:
+                self.bad.append(("state", "after %s of %s (%s) on %s at t=%r: %s observed %r, "
+                                 "reference %r" % (what, rid, kind or "", res, now, name, observed,
+                                                   expected)))
+            spec = world.scenario["resources"][name]
+            if spec["type"] == "container":
+                cap = float("inf") if spec.get("capacity") in (None, "inf") else spec["capacity"]
+                if not 0 <= observed["level"] <= cap:
+                    self.bad.append(("capacity", "%s: level %r outside [0, %r]"
+                                     % (name, observed["level"], cap)))
+            elif "users" in observed and observed["count"] > spec["capacity"]:
+                self.bad.append(("capacity", "%s: %d users with capacity %r"
+                                 % (name, observed["count"], spec["capacity"])))
         triggered = {r for r, ev in world.requests.items() if ev.triggered}
-        if triggered != set(model.granted) and len(self.bad) < 5:
+        if triggered != granted and len(self.bad) < 5:
             self.bad.append(("grants", "after %s of %s at t=%r: triggered %r, reference grants %r"
-                             % (what, rid, now, sorted(triggered ^ set(model.granted)), None)))
-        spec = world.scenario["resources"]["R"]
-        if spec["type"] == "container":
-            cap = float("inf") if spec.get("capacity") in (None, "inf") else spec["capacity"]
-            if not 0 <= observed["level"] <= cap:
-                self.bad.append(("capacity", "level %r outside [0, %r]" % (observed["level"], cap)))
-        elif "users" in observed and observed["count"] > spec["capacity"]:
-            self.bad.append(("capacity", "%d users with capacity %r"
-                             % (observed["count"], spec["capacity"])))
+                             % (what, rid, now, sorted(triggered ^ granted), None)))
 
 
 def setup(world):
@@ -332,10 +355,10 @@ def check(rec):
     for rule, msg in rec.monitor_violations:
         bad(rule, msg)
     follower = rec.notes["follower"]
-    model = follower.model
     # delivered values
     for ev in rec.trace:
         if ev[4] == "get.done":
+            model = follower.models.get(ev[5], follower.model)
             want = model.granted.get(ev[6], "<not granted>")
             if model.kind != "container" and _canon(ev[7]) != _canon(want):
                 bad("value", "%s received %r from %s, reference %r" % (ev[3], ev[7], ev[6], want))
@@ -343,13 +366,16 @@ def check(rec):
     seen = [(ev[3], ev[5]) for ev in rec.trace if ev[4] == "interrupted"
             and isinstance(ev[5], tuple) and ev[5][0] == "preempted"]
     want = []
-    for victim, by, since, mark in model.preempted:
+    marks = sorted((mark, name, victim, by, since) for name, model in follower.models.items()
+                   for victim, by, since, mark in model.preempted)
+    for mark, res_name, victim, by, since in marks:
+        model = follower.models[res_name]
         actor = model.req[victim]["actor"]
         if any(ev[3] == actor and ev[4] in ("end", "interrupted") and ev[4] == "end"
                for ev in rec.trace[:mark]):
             continue                 # the victim's process had finished: nobody to interrupt
         when = rec.trace[min(mark, len(rec.trace) - 1)][2] if rec.trace else None
-        want.append((actor, ("preempted", model.req[by]["actor"], since, "R"), when))
+        want.append((actor, ("preempted", model.req[by]["actor"], since, res_name), when))
     ended_at = {ev[3]: ev[2] for ev in rec.trace if ev[4] == "end"}
     for actor in sorted({a for a, _ in seen} | {a for a, _, _ in want}):
         mine = [report for a, report in seen if a == actor]
@@ -364,17 +390,22 @@ def check(rec):
                 % (actor, mine, expected))
             break
     # at quiescence nothing grantable is left waiting
-    probe = Model(model.kind, model.capacity)
-    probe.__dict__.update({k: (list(v) if isinstance(v, list) else dict(v) if isinstance(v, dict)
-                               else v) for k, v in model.__dict__.items()})
-    before = set(probe.granted)
-    probe.trigger_put(rec.end_time)
-    probe.trigger_get(rec.end_time)
-    if set(probe.granted) != before and not follower.after_cancel:
-        late = sorted(set(probe.granted) - before)
-        cancelled = any(ev[4] == "cancel" for ev in rec.trace)
-        if not cancelled:
-            bad("left-waiting", "requests %r are grantable at quiescence but still pending" % late)
+    for res_name, model in follower.models.items():
+        probe = Model(model.kind, model.capacity)
+        probe.__dict__.update({k: (list(v) if isinstance(v, list) else dict(v)
+                                   if isinstance(v, dict) else v)
+                               for k, v in model.__dict__.items()})
+        before = set(probe.granted)
+        probe.trigger_put(rec.end_time)
+        probe.trigger_get(rec.end_time)
+        if set(probe.granted) != before and not follower.after_cancel:
+            late = sorted(set(probe.granted) - before)
+            cancelled = any(ev[4] == "cancel" and (len(ev) < 6 or ev[5] == res_name or
+                                                   ev[5] not in follower.models)
+                            for ev in rec.trace)
+            if not cancelled:
+                bad("left-waiting", "requests %r on %s are grantable at quiescence but still "
+                    "pending" % (late, res_name))
     return out
 
 
@@ -387,8 +418,11 @@ def run_case(case):
         stats = {"probe.type.%s" % case["scenario"]["resources"]["R"]["type"]: 1}
         if follower is not None:
             stats["probe.states-compared"] = follower.compared
-            if follower.model.preempted:
-                stats["probe.preemptions"] = len(follower.model.preempted)
+            n_pre = sum(len(m.preempted) for m in follower.models.values())
+            if n_pre:
+                stats["probe.preemptions"] = n_pre
+            if len(follower.models) > 1:
+                stats["probe.two-resources"] = 1
         if any(ev[4] == "cancel" for ev in rec.trace):
             stats["probe.cancelled-requests"] = 1
         history = tuple((ev[3], ev[4]) + tuple(map(repr, ev[5:8])) for ev in rec.trace
